@@ -7,6 +7,7 @@ import (
 	"fmt"
 	"github.com/google/mtail/internal/runtime"
 	"os"
+	"os/signal"
 	"path/filepath"
 	"sort"
 	"strings"
@@ -475,6 +476,13 @@ func c26HupDuringScan(round int) *vstat.Failure {
 		return vstat.Failf("load-all-error", "%v", err)
 	}
 	loads0 := mapVal(runtime.ProgLoads, a)
+	// the runtime subscribes to SIGHUP in a goroutine of its own, some time
+	// after New has returned: keep the default action (terminate) from ever
+	// applying to this process, and give that goroutine time to get there
+	own := make(chan os.Signal, 8)
+	signal.Notify(own, syscall.SIGHUP)
+	defer signal.Stop(own)
+	time.Sleep(30 * time.Millisecond)
 	if err := syscall.Mkfifo(filepath.Join(dir, fifo), 0o644); err != nil {
 		panic(err)
 	}
@@ -489,12 +497,20 @@ func c26HupDuringScan(round int) *vstat.Failure {
 	hup() // request 2
 	time.Sleep(2 * time.Millisecond)
 	// let the first scan go on: the pipe yields an empty program
-	w, err := os.OpenFile(filepath.Join(dir, fifo), os.O_WRONLY, 0)
-	if err != nil {
-		panic(err)
+	var w *os.File
+	for end := time.Now().Add(3 * time.Second); time.Now().Before(end); time.Sleep(time.Millisecond) {
+		// non-blocking: fails while no scan has the pipe open for reading
+		if w, err = os.OpenFile(filepath.Join(dir, fifo), os.O_WRONLY|syscall.O_NONBLOCK, 0); err == nil {
+			break
+		}
+	}
+	_ = os.Remove(filepath.Join(dir, fifo))
+	if w == nil {
+		// no scan ever got to the pipe (the first signal came before the runtime
+		// listened): the situation was not set up; nothing to judge
+		return nil
 	}
 	w.Close()
-	_ = os.Remove(filepath.Join(dir, fifo))
 	// both requests served: a_… has been loaded again
 	ok := false
 	for end := time.Now().Add(5 * time.Second); time.Now().Before(end); time.Sleep(2 * time.Millisecond) {
